@@ -650,4 +650,194 @@ theorem resolveImports_eq_flatSpec_full (vfs : Vfs) (who : Who) (href : Str) (sh
   | error e => simp [hc]
   | ok c => simp [hc, run_nil_eq_hoist]
 
+/-! ### fetching: when every target was found, flattening calls no fetcher — also with @imports that are kept
+because they cannot be wrapped -/
+
+/-! `allFoundL`: the target of every @import, at any depth, was found -/
+mutual
+def allFoundR : Rule → Bool
+  | .imp _ _ found _ sheet => found && allFoundL sheet
+  | _ => true
+def allFoundL : List Rule → Bool
+  | [] => true
+  | r :: rs => allFoundR r && allFoundL rs
+end
+
+/-- not an @import whose target was not found -/
+def foundImp : Rule → Bool
+  | .imp _ _ f _ _ => f
+  | _ => true
+
+theorem foundImp_of_tag (r : Rule) (h : r.tag ≠ 2) : foundImp r = true := by
+  cases r <;> simp_all [foundImp, Rule.tag]
+
+theorem replRule_foundImp (f : Repl) (r r' : Rule) (lg : List Str) (h : replRule f r = .ok (r', lg))
+    (hf : foundImp r = true) : foundImp r' = true := by
+  have ht := replRule_tag f r r' lg h
+  cases r with
+  | imp a b c d e => simp [replRule] at h; obtain ⟨rfl, _⟩ := h; exact hf
+  | charset _ => exact foundImp_of_tag r' (by rw [ht]; simp [Rule.tag])
+  | comment _ => exact foundImp_of_tag r' (by rw [ht]; simp [Rule.tag])
+  | ns _ _ => exact foundImp_of_tag r' (by rw [ht]; simp [Rule.tag])
+  | style _ _ => exact foundImp_of_tag r' (by rw [ht]; simp [Rule.tag])
+  | media _ _ => exact foundImp_of_tag r' (by rw [ht]; simp [Rule.tag])
+  | page _ _ _ => exact foundImp_of_tag r' (by rw [ht]; simp [Rule.tag])
+  | fontface _ => exact foundImp_of_tag r' (by rw [ht]; simp [Rule.tag])
+  | unknown _ => exact foundImp_of_tag r' (by rw [ht]; simp [Rule.tag])
+
+theorem replRules_foundImp (f : Repl) : ∀ (rs rs' : List Rule) (log : List Str),
+    replRules f rs = .ok (rs', log) → (∀ r ∈ rs, foundImp r = true) → ∀ r ∈ rs', foundImp r = true
+  | [], rs', log, h, _ => by simp [replRules] at h; rw [h.1]; simp
+  | r :: rs, rs', log, h, hf => by
+    simp only [replRules] at h
+    split at h
+    · simp at h
+    · rename_i a ha
+      split at h
+      · simp at h
+      · rename_i b hb
+        simp at h
+        obtain ⟨rfl, _⟩ := h
+        intro x hx
+        rcases List.mem_cons.mp hx with rfl | hx
+        · exact replRule_foundImp f r a.1 a.2 ha (hf r (List.mem_cons_self ..))
+        · exact replRules_foundImp f rs b.1 b.2 hb (fun y hy => hf y (List.mem_cons_of_mem _ hy)) x hx
+
+theorem keep1_found (vfs : Vfs) (who : Who) (th : Str) (r : Rule) (hf : foundImp r = true) :
+    (keep1 vfs who th r).log = [] ∧ ∀ x, (keep1 vfs who th r).val = .ok x → x = r := by
+  cases r with
+  | imp a b found d e =>
+    cases found with
+    | true => simp [keep1]
+    | false => simp [foundImp] at hf
+  | charset _ => simp [keep1, appended]
+  | ns _ _ => simp [keep1, appended]
+  | comment _ => simp [keep1, appended]
+  | style _ _ => simp [keep1, appended]
+  | media _ _ => simp [keep1, appended]
+  | page _ _ _ => simp [keep1, appended]
+  | fontface _ => simp [keep1, appended]
+  | unknown _ => simp [keep1, appended]
+
+theorem keepAll_found (vfs : Vfs) (who : Who) (th : Str) : ∀ X : List Rule, (∀ r ∈ X, foundImp r = true) →
+    (keepAll vfs who th X).log = [] ∧ ∀ m, (keepAll vfs who th X).val = .ok m → m = X
+  | [], _ => by simp [keepAll]
+  | r :: rs, h => by
+    obtain ⟨l1, v1⟩ := keep1_found vfs who th r (h r (List.mem_cons_self ..))
+    obtain ⟨l2, v2⟩ := keepAll_found vfs who th rs (fun x hx => h x (List.mem_cons_of_mem _ hx))
+    simp only [keepAll]
+    cases ha : (keep1 vfs who th r).val with
+    | error e => simp [l1]
+    | ok x =>
+      have := v1 x ha; subst this
+      cases hb : (keepAll vfs who th rs).val with
+      | error e => simp [l1, l2]
+      | ok xs =>
+        have := v2 xs hb; subst this
+        simp [l1, l2]
+
+theorem allFoundL_cons (r : Rule) (rs : List Rule) : allFoundL (r :: rs) = (allFoundR r && allFoundL rs) := by
+  simp [allFoundL]
+
+mutual
+theorem cascRules_found (vfs : Vfs) (who : Who) : ∀ (rs : List Rule) (th : Str), allFoundL rs = true →
+    (cascRules vfs who th rs).log = [] ∧ ∀ c, (cascRules vfs who th rs).val = .ok c → ∀ x ∈ c, foundImp x = true
+  | [], th, _ => by simp [cascRules]
+  | r :: rs, th, h => by
+    rw [allFoundL_cons, Bool.and_eq_true] at h
+    obtain ⟨l1, v1⟩ := cascRule_found vfs who r th h.1
+    obtain ⟨l2, v2⟩ := cascRules_found vfs who rs th h.2
+    simp only [cascRules]
+    cases ha : (cascRule vfs who th r).val with
+    | error e => simp [l1]
+    | ok c1 =>
+      cases hb : (cascRules vfs who th rs).val with
+      | error e => simp [l1, l2]
+      | ok c2 =>
+        simp only [l1, l2, List.append_nil, true_and]
+        intro c hc; simp at hc; subst hc
+        intro x hx
+        rcases List.mem_append.mp hx with hx | hx
+        · exact v1 c1 ha x hx
+        · exact v2 c2 hb x hx
+theorem cascRule_found (vfs : Vfs) (who : Who) : ∀ (r : Rule) (th : Str), allFoundR r = true →
+    (cascRule vfs who th r).log = [] ∧ ∀ c, (cascRule vfs who th r).val = .ok c → ∀ x ∈ c, foundImp x = true
+  | .charset _, th, _ => by simp [cascRule]
+  | .imp href media true ihref sheet, th, h => by
+    have hs : allFoundL sheet = true := by simpa [allFoundR] using h
+    obtain ⟨l1, v1⟩ := cascRules_found vfs who sheet ihref hs
+    simp only [cascRule]
+    cases hi : (cascRules vfs who ihref sheet).val with
+    | error e => simp [l1]
+    | ok ci =>
+      simp only []
+      cases hre : replRules (replacer href) (hoist ci) with
+      | error e => simp [l1]
+      | ok rebased =>
+        have hfr : ∀ r ∈ rebased.1, foundImp r = true :=
+          replRules_foundImp _ (hoist ci) rebased.1 rebased.2 hre
+            (fun r hr => v1 ci hi r ((hoist_mem ci r).mp hr))
+        obtain ⟨l2, v2⟩ := keepAll_found vfs who th rebased.1 hfr
+        simp only []
+        by_cases hma : media = mediaAll
+        · simp only [hma, ↓reduceIte]
+          cases hk : (keepAll vfs who th rebased.1).val with
+          | error e => simp [l1, l2]
+          | ok m =>
+            have := v2 m hk; subst this
+            simp only [l1, l2, List.append_nil, true_and]
+            intro c hc; simp at hc; subst hc
+            intro x hx
+            rcases List.mem_cons.mp hx with rfl | hx
+            · rfl
+            · exact hfr x hx
+        · simp only [hma, ↓reduceIte]
+          by_cases hall : rebased.1.all combinable = true
+          · simp only [hall, ↓reduceIte, l1, true_and]
+            intro c hc; simp at hc; subst hc
+            intro x hx; simp at hx; rcases hx with rfl | rfl <;> rfl
+          · have hall' : rebased.1.all combinable = false := by
+              cases hb : rebased.1.all combinable with
+              | true => exact absurd hb hall
+              | false => rfl
+            simp only [hall', Bool.false_eq_true, ↓reduceIte, l1, true_and]
+            intro c hc; simp at hc; subst hc
+            intro x hx; simp at hx; rcases hx with rfl | rfl <;> rfl
+  | .imp href media false ihref sheet, th, h => by simp [allFoundR] at h
+  | .comment a, th, _ => by simp [cascRule, keep1, appended, foundImp]
+  | .ns a b, th, _ => by simp [cascRule, keep1, appended]
+  | .style a b, th, _ => by simp [cascRule, keep1, appended, foundImp]
+  | .media a b, th, _ => by simp [cascRule, keep1, appended, foundImp]
+  | .page a b d, th, _ => by simp [cascRule, keep1, appended, foundImp]
+  | .fontface a, th, _ => by simp [cascRule, keep1, appended, foundImp]
+  | .unknown a, th, _ => by simp [cascRule, keep1, appended, foundImp]
+end
+
+/-- re-basing leaves the @import rules of a sheet as they are (C19-kept-import-not-rebased in general) -/
+theorem replRules_keeps_imports (f : Repl) : ∀ (rs rs' : List Rule) (log : List Str),
+    replRules f rs = .ok (rs', log) → rs'.filter isImp = rs.filter isImp
+  | [], rs', log, h => by simp [replRules] at h; simp [h.1.symm]
+  | r :: rs, rs', log, h => by
+    simp only [replRules] at h
+    split at h
+    · simp at h
+    · rename_i a ha
+      split at h
+      · simp at h
+      · rename_i b hb
+        simp at h
+        obtain ⟨rfl, _⟩ := h
+        have ih := replRules_keeps_imports f rs b.1 b.2 hb
+        have ht := replRule_tag f r a.1 a.2 ha
+        cases r with
+        | imp p q u v w => simp [replRule] at ha; subst ha; simp [List.filter_cons, isImp, ih]
+        | charset _ => cases h1 : a.1 <;> simp_all [isImp, Rule.tag]
+        | comment _ => cases h1 : a.1 <;> simp_all [isImp, Rule.tag]
+        | ns _ _ => cases h1 : a.1 <;> simp_all [isImp, Rule.tag]
+        | style _ _ => cases h1 : a.1 <;> simp_all [isImp, Rule.tag]
+        | media _ _ => cases h1 : a.1 <;> simp_all [isImp, Rule.tag]
+        | page _ _ _ => cases h1 : a.1 <;> simp_all [isImp, Rule.tag]
+        | fontface _ => cases h1 : a.1 <;> simp_all [isImp, Rule.tag]
+        | unknown _ => cases h1 : a.1 <;> simp_all [isImp, Rule.tag]
+
 end CssVerif.Urls
